@@ -82,6 +82,12 @@ def assigned_before_child(ctx, cls):
 
 
 def run(ctx):
+    # every result is emitted exactly once, as (counter, True, value, id), on the result channel (the sender side of "never duplicated"; shared with C05.R3)
+    from .c05 import check_send_result
+    from ..lifecycle import worker_classes as _wc
+    for cls0 in _wc(ctx.prog, internal=False):
+        if cls0.name.startswith('Persistent'):
+            check_send_result(ctx, cls0, 'R2')
     from ..sockets import check_blocking_sockets, check_child_death_eof, check_forced_kill_eof
     check_blocking_sockets(ctx, 'R6')
     check_child_death_eof(ctx, 'R6')
